@@ -226,22 +226,25 @@ def joinLF : List (List Nat) → List Nat
   | [l] => l
   | l :: ls => l ++ 10 :: joinLF ls
 
-/-- `blockStringValue` (string_value.go:16), with patch 02: a line shorter than the common indent
-    becomes empty. Lines hold code points; the Go code slices bytes, which is the same cut because
-    only spaces and tabs are ever removed from a line that is long enough, and a shorter line consists
-    of spaces and tabs only. -/
+/-- The loop of string_value.go:35-43 (with patch 02: a line shorter than the common indent becomes
+    empty). `commonIndent = none` is Go's `-1`. -/
+def removeIndentLoop (commonIndent : Option Nat) (lines : List (List Nat)) : List (List Nat) :=
+  match commonIndent with
+  | some ci =>
+    if ci > 0 then
+      match lines with
+      | [] => []
+      | first :: more => first :: more.map fun line => if line.length ≥ ci then line.drop ci else []
+    else lines
+  | none => lines
+
+/-- `blockStringValue` (string_value.go:16). Lines hold code points; the Go code slices bytes, which is
+    the same cut because only spaces and tabs are ever removed from a line that is long enough, and a
+    shorter line consists of spaces and tabs only. -/
 def blockStringValue (raw : List Nat) : List Nat :=
   let lines := splitLF (replaceCR (replaceCRLF raw))
   let commonIndent := commonIndentLoop (lines.drop 1) none
-  let lines :=
-    match commonIndent with
-    | some ci =>
-      if ci > 0 then
-        match lines with
-        | [] => []
-        | first :: more => first :: more.map fun line => if line.length ≥ ci then line.drop ci else []
-      else lines
-    | none => lines
+  let lines := removeIndentLoop commonIndent lines
   joinLF (stripLoop lines.length lines)
 
 /-- The `for i := 0; i < 4; i++` loop of the `\u` escape (string_value.go:100-108). -/
